@@ -146,10 +146,10 @@ func (fv *FnV) evalIdent(st *State, id *ast.Ident) Val {
 			name := "G_" + o.Name()
 			fv.smt.declareFun(name, fmt.Sprintf("(declare-const %s %s)", name, fv.smt.sortOf(o.Type())))
 			if o.Name() == "posInf" {
-				fv.smt.declareFun("ax_posInf", "(assert (> G_posInf 1e300))")
+				fv.smt.declareFun("ax_posInf", "(assert (> G_posInf 1000000000000000000000000000000000000000000000000000000000000000000000000000000000000000000000000000000000000000000000000000000000000000000000000000000000000000000000000000000000000000000000000000000000000000000000000000000000000000000000000000000000000000000000000000000000000000000000000000000000000.0))")
 			}
 			if o.Name() == "negInf" {
-				fv.smt.declareFun("ax_negInf", "(assert (< G_negInf (- 1e300)))")
+				fv.smt.declareFun("ax_negInf", "(assert (< G_negInf (- 1000000000000000000000000000000000000000000000000000000000000000000000000000000000000000000000000000000000000000000000000000000000000000000000000000000000000000000000000000000000000000000000000000000000000000000000000000000000000000000000000000000000000000000000000000000000000000000000000000000000000.0)))")
 			}
 			return Val{name, fv.smt.resolve(o.Type())}
 		}
